@@ -7,12 +7,14 @@ import (
 	"fmt"
 	"testing"
 
-	"github.com/libp2p/go-libp2p/core/peer"
 	cidlink "github.com/ipld/go-ipld-prime/linking/cid"
+	"github.com/libp2p/go-libp2p/core/peer"
 
 	datatransfer "github.com/filecoin-project/go-data-transfer/v2"
 	"github.com/filecoin-project/go-data-transfer/v2/message"
+	"github.com/filecoin-project/go-data-transfer/v2/message/types"
 
+	"verif/harness/internal/cborx"
 	"verif/harness/internal/doubles"
 	"verif/harness/internal/gen"
 	"verif/harness/internal/vf"
@@ -295,7 +297,9 @@ func stimuliFor(c *vf.Case, f func() *mgrFix, chid datatransfer.ChannelID, r rol
 			c.Violation("C02", "close-terminal-errors", "CloseDataTransferChannel on a terminated channel returned %v", err)
 		}
 	})
-	add("API:CloseWithError", func() { f().m.(closerWithError).CloseDataTransferChannelWithError(bg, chid, errors.New("monitor gave up")) })
+	add("API:CloseWithError", func() {
+		f().m.(closerWithError).CloseDataTransferChannelWithError(bg, chid, errors.New("monitor gave up"))
+	})
 	add("API:Pause", func() { f().m.PauseDataTransferChannel(bg, chid) })
 	add("API:Resume", func() { f().m.ResumeDataTransferChannel(bg, chid) })
 	add("API:Restart", func() {
@@ -376,6 +380,42 @@ func TestC02Mgr(t *testing.T) {
 							f.net.Deliver(other, w)
 						}
 					}})
+			}
+		}
+		// restart requests that only the wire format can express (the library's constructors always
+		// fill every field): base CID, selector and/or voucher absent
+		if !r.Initiator {
+			vplain, _ := cborx.Decode(mustHex(doubles.CBOR(v.Voucher)))
+			splain, _ := cborx.Decode(mustHex(doubles.CBOR(gen.AllSelector)))
+			for i, sp := range []struct {
+				n                 string
+				bcid, stor, vouch any
+				vtyp              string
+			}{
+				{"no-cid", nil, splain, vplain, string(v.Type)},
+				{"no-cid-no-selector", nil, nil, vplain, string(v.Type)},
+				{"bare", nil, nil, nil, ""},
+				{"no-voucher", dummyCid, splain, nil, ""},
+			} {
+				wire := cborx.Encode(reqMap(uint64(types.RestartMessage), uint64(chid.ID), false, r.Pull, sp.bcid, sp.stor, sp.vouch, sp.vtyp, nil))
+				name := "SparseRestartRequest(" + sp.n + ")"
+				overNet := (i+c.Index)%2 == 0
+				stims = append(stims, stim{name, func() {
+					m, err := message.FromNet(bytes.NewReader(wire))
+					if err != nil {
+						c.Count("sparse_restart_undecodable", 1)
+						return
+					}
+					c.Count("sparse_restart_delivered", 1)
+					if overNet {
+						f.net.Deliver(other, m)
+						return
+					}
+					resp, _ := f.tp.Events().OnRequestReceived(chid, m.(datatransfer.Request))
+					if resp != nil && resp.Accepted() {
+						c.Violation("C02", "restart-request-accepted-on-terminal "+sp.n, "incoming %s restart request for a %s channel was answered Accepted", sp.n, term)
+					}
+				}})
 			}
 		}
 		c.Rng.Shuffle(len(stims), func(i, j int) { stims[i], stims[j] = stims[j], stims[i] })
